@@ -48,7 +48,7 @@ fn main() {
             "C09" => e1::run::run("C09", tier),
             "C14" => e1::run::run("C14", tier),
             "C15" => e1::run::run("C15", tier),
-            "C16" => e1::run::run("C16", tier),
+            "C16" => c19::run_c16(tier),
             "C17" => e1::run::run("C17", tier),
             "C19" => c19::run(tier),
             "C20" => e1::run::run("C20", tier),
@@ -80,6 +80,7 @@ fn replay(path: &str) -> i32 {
     match r["engine"].as_str().unwrap_or("") {
         "e1_router" => e1::run::replay(r),
         "e6_fullstack" => c19::replay(r),
+        "e6_will" => c19::replay_will(r),
         "e2_client" => e2::run::replay(r),
         "e3_codec" => e3_codec::replay(r),
         "e4_topicgrid" => e4_topicgrid::replay(r),
